@@ -552,8 +552,12 @@ func runHeapHistory(ops []op, maxStr, maxBytes int, in apiInput, shape string) (
 	var scriptSrc, compiledSrc [][]stmt
 	outside := ""
 	for i, o := range ops {
-		if o.K == "run" && o.H < len(rs.compiled) && o.H < len(compiledSrc) && outside == "" {
-			outside = indexUpdateOfMap(rs.compiled[o.H], compiledSrc[o.H])
+		// (an index update of a map, `m[0] = v`, was outside the model until updCell got its `Map.IndexSet` clause;
+		// indexUpdateOfMap is kept for the distribution only)
+		if o.K == "run" && o.H < len(rs.compiled) && o.H < len(compiledSrc) {
+			if k := indexUpdateOfMap(rs.compiled[o.H], compiledSrc[o.H]); k != "" {
+				res.Dist("heap-shape-extra:" + k)
+			}
 		}
 		reals[i] = rs.doHeap(o)
 		switch {
